@@ -26,7 +26,7 @@ func init() {
 			if tier == "quick" {
 				return 256
 			}
-			return 3200
+			return 9600
 		},
 		Run:      runC08,
 		Required: []string{"placed.representative_exactly_at_threshold", "placed.joined_nearest_of_several", "placed.joined_only_candidate", "placed.founded", "placed.in_epoch", "placed.direct", "method.linear", "method.fast"},
